@@ -247,7 +247,9 @@ func walksFrom(K int, window string, data int, anyStart bool) {
 			if w.parent[target] != at {
 				continue
 			}
+			asMiner := false
 			if anyStart && vrt.Choice("seen-before", 2) == 1 {
+				asMiner = vrt.Choice("as-miner", 2) == 1
 				// the node has seen the block's transactions before: they sit in its pool when the block arrives
 				for _, tx := range w.blocks[target].Transactions {
 					if !tx.Coinbase && !tx.Autogen { // generated transactions never travel through the pool
@@ -261,7 +263,13 @@ func walksFrom(K int, window string, data int, anyStart bool) {
 					}
 				}
 			}
-			err := s.Play(w.blocks[target].Blockid)
+			var err error
+			if asMiner {
+				// the node produced the block itself from its pool: the miner's way of applying it
+				err = s.PlayForMiner(w.blocks[target].Blockid)
+			} else {
+				err = s.Play(w.blocks[target].Blockid)
+			}
 			vrt.Assert(err == nil, "play-of-child-block-succeeds")
 			at = target
 		case 2: // restart
